@@ -58,7 +58,18 @@ func GenCodec(r *rand.Rand) *profile.Profile {
 		for i := 0; i < n; i++ {
 			o = append(o, idPool[perm[i]])
 		}
-		switch r.Intn(3) {
+		switch r.Intn(4) {
+		case 3: // ids 1..n with the first and the last in place and the middle in any order
+			for i := range o {
+				o[i] = uint64(i + 1)
+			}
+			if n > 3 {
+				mid := o[1 : n-1]
+				r.Shuffle(len(mid), func(i, j int) { mid[i], mid[j] = mid[j], mid[i] })
+				if r.Intn(3) == 0 {
+					mid[r.Intn(len(mid))] = []uint64{1 << 40, 1 << 63, 1000}[r.Intn(3)]
+				}
+			}
 		case 0: // dense ids, with the last one at the id==len / len+1 boundary
 			for i := range o {
 				o[i] = uint64(i + 1)
